@@ -69,6 +69,8 @@ def body_case(draw, factory, size_lo=0.05, size_hi=20.0):
         c["hint_div"] = draw(st.sampled_from([4, 6, 8, 12]))
     if draw(st.booleans()):
         c["express_in"] = {"R": draw(atoms.rotations()), "p": draw(atoms.positions(10.0))}
+    if draw(st.booleans()):
+        c["update_pose"] = {"R": draw(atoms.rotations()), "p": draw(atoms.positions(10.0))}
     return c
 
 
@@ -204,10 +206,20 @@ def check_body(c):
         return [fail("exception/%s/%s" % (body.type, body.frame), repr(body))], {"labels": [tag], "nontrivial": False}
     labels = [tag, "rot:" + atoms.rotation_class(c["R"])]
     size = max(np.abs(np.asarray(body.vertices_)).max(), 1.0)
-    for stage in ("fresh", "expressed"):
+    for stage in ("fresh", "expressed", "moved"):
+        if stage == "moved":
+            # the BVH calls aabb(), then update_pose(new), then aabb() again
+            if "update_pose" not in c:
+                break
+            labels.append("update_pose")
+            e = c["update_pose"]
+            r = call_lib(body.update_pose, pose_matrix(e["R"], e["p"]))
+            if isinstance(r, LibError):
+                fails.append(fail("exception/%s/%s" % (r.type, r.frame), repr(r)))
+                break
         if stage == "expressed":
             if "express_in" not in c:
-                break
+                continue
             labels.append("express_in")
             e = c["express_in"]
             r = call_lib(body.express_in, pose_matrix(e["R"], e["p"]))
